@@ -51,6 +51,7 @@ fn main() {
     ("u5c", "replay") => u5c::replay(rest),
     ("u5d", "find") => u5d::find(rest),
     ("u5d", "replay") => u5d::replay(rest),
+    ("u5d", "findmirror") => u5d::find_mirror(rest),
     ("u6", "find") => u6::find(rest),
     ("u6", "replay") => u6::replay(rest),
     ("u6b", "find") => u6b::find(rest),
